@@ -21,7 +21,7 @@ Reading guide.
 * `Dividers::{modu16, modi64, divmod_uint}` are exact (`%`, `/`) by property C08
   (`Ymq.C08.modu16_spec`, `modi64_spec`); the u16/u32 arithmetic around them is explicit in the model.
 -/
-import Ymq.Lemmas.SieveTotal2
+import Ymq.Lemmas.SieveRounds
 import Ymq.Lemmas.SieveFBase
 import Ymq.Lemmas.SieveLogSum
 
@@ -285,15 +285,20 @@ theorem listed_complete (fb : FB) (hfb : fb.WF) (r1 r2 : Array Nat) (hr : RootsO
   · rw [hbk] at c2
     exact c2 (by omega) hroot hx
 
-/-- `listed_complete` for the classical quadratic sieve: after a full interval (`nblocks` blocks) the
-caller shifts the roots by the interval length and calls `rehash`; the cursors of the small primes run on
-(`B = nblocks + b` blocks since `new`), the bucket tables are rebuilt for the shifted roots `r1'`, `r2'`
-(block number `b` inside the new interval). -/
-theorem listed_complete_rehash (fb : FB) (hfb : fb.WF) (r1 r2 r1' r2' : Array Nat) (hr : RootsOK fb r1 r2)
+/-- `listed_complete` for the classical quadratic sieve, ANY number of `rehash` calls: the caller sieves a
+full interval (`nblocks` rounds), shifts the roots by the interval length and calls `rehash`, again and
+again (`rehashRounds fb nblocks rs`, one root table of `rs` per `rehash`, `rs ≠ []`). The cursors of the
+small primes run on from the roots `r1`, `r2` given to `new` (`rs.length·nblocks + b` blocks since `new`);
+the bucket tables hold the roots `(r1', r2')` of the LAST `rehash` (block number `b` inside the current
+interval). No hypothesis relates the tables of `rs` to each other or to `r1`, `r2` (the caller's shift
+`r' = (r − nblocks·32768) mod p` makes the two congruences below the same one). -/
+theorem listed_complete_rehash (fb : FB) (hfb : fb.WF) (r1 r2 : Array Nat) (hr : RootsOK fb r1 r2)
     (offset : Int) (nblocks : Nat) (hN : nblocks ≤ 2 ^ 17)
     (recycled : Option (Array Table × Array LTable)) (hrec : RecycledOK recycled)
-    (s0 sa sb : State) (h0 : Sieve.new offset nblocks fb r1 r2 recycled = some s0)
-    (ha : runBlocks fb nblocks s0 = some sa) (hb : rehash fb sa r1' r2' = some sb)
+    (rs : List (Array Nat × Array Nat)) (hrs : rs ≠ []) (r1' r2' : Array Nat)
+    (hlast : rs.getLast? = some (r1', r2'))
+    (s0 sb : State) (h0 : Sieve.new offset nblocks fb r1 r2 recycled = some s0)
+    (hb : rehashRounds fb nblocks rs s0 = some sb)
     (b : Nat) (hbn : b < nblocks) (s1 : State) (h1 : runBlocks fb b sb = some s1)
     (s : State) (h2 : sieveBlock fb s1 = some s) :
     ∃ lost : Nat → List (Nat × Nat),
@@ -301,25 +306,32 @@ theorem listed_complete_rehash (fb : FB) (hfb : fb.WF) (r1 r2 r1' r2' : Array Na
       ∀ r, r < 32768 → ∀ facs, factorsOf fb s r1' r2' r = some facs →
         ∀ pidx p o, fb.primes[pidx]? = some p →
           ((p < 32768 → (r1[pidx]? = some o ∨ r2[pidx]? = some o) →
-              ((nblocks + b) * 32768 + r) % p = o → pidx ∈ facs) ∧
+              ((rs.length * nblocks + b) * 32768 + r) % p = o → pidx ∈ facs) ∧
            (32768 ≤ p → (r1'[pidx]? = some o ∨ r2'[pidx]? = some o) → (b * 32768 + r) % p = o →
               pidx ∈ facs ∨ (16 ≤ bitlen p ∧ bitlen p ≤ 18 ∧
                 (b * 32768 + r, pidx % 2 ^ 32) ∈ lost (bitlen p - 16)))) := by
   obtain ⟨nS, hnS⟩ := hfb.ibl_some 16 (by omega)
   obtain ⟨_, n0, _, inv0⟩ := new_spec hfb hr hrec hnS h0
-  obtain ⟨inva, _, na, _⟩ := runBlocks_spec hfb hnS nblocks 0 s0 sa inv0 ha
-  obtain ⟨invb, bb, nb, _⟩ := rehash_spec inva hb
+  obtain ⟨invb, nb, bkb, _⟩ := rehashRounds_spec hfb hnS rs (r1, r2) 0 s0 sb inv0 n0 hb
+  have hl : lastRoots rs (r1, r2) = (r1', r2') := by simp [lastRoots, hlast]
+  rw [hl] at invb
   obtain ⟨inv, bk, n1, _⟩ := runBlocks_spec hfb hnS b _ sb s1 invb h1
   simp only [Nat.zero_add] at inv
-  have hbk : s1.blkNo = b := by rw [bk, bb]; simp
-  have hn1 : s1.nblocks = nblocks := by rw [n1, nb, na, n0]
-  obtain ⟨lost, hl, hc⟩ := listed_complete_inv hfb hnS inv (by rw [hbk, hn1]; exact hbn)
+  have hbk : s1.blkNo = b := by rw [bk, bkb hrs]; simp
+  have hn1 : s1.nblocks = nblocks := by rw [n1, nb]
+  obtain ⟨lost, hlo, hc⟩ := listed_complete_inv hfb hnS inv (by rw [hbk, hn1]; exact hbn)
     (by rw [hn1]; exact hN) h2
-  refine ⟨lost, hl, ?_⟩
+  refine ⟨lost, hlo, ?_⟩
   intro r hr' facs hf pidx p o hp
   have := hc r hr' facs hf pidx p o hp
   rw [hbk] at this
   exact this
+
+/-- non-vacuity of `listed_complete_rehash`: two `rehash` rounds on a base with a prime of size class 16. -/
+example : ((Sieve.new 0 1 (FB.ofPrimes #[2, 5, 32771]) #[0, 3, 7] #[1, 4, 100] none).bind
+      (rehashRounds (FB.ofPrimes #[2, 5, 32771]) 1 [(#[0, 0, 10], #[1, 1, 103]), (#[0, 2, 13], #[1, 3, 106])])).map
+      (fun s => (s.blkNo, s.lo)) = some (0, #[0, 1, 2, 3])  := by
+  decide +kernel
 
 /-- non-vacuity of `listed_complete`: one prime of size class 16 (two roots), one block: position 7 lists
 prime index 2 (= 32771, root 7), position 3 lists index 1 (= 5, root 3). -/
@@ -366,30 +378,43 @@ theorem no_panic (fb : FB) (hfb : fb.WF) (hne : fb.primes.size ≠ 0) (r1 r2 : A
     (by rw [b0]; omega) (by rw [f0]; omega)
   exact ⟨s1, s, s2, h1, h2, h4, h3, recycle_sized inv2 sz2⟩
 
-/-- `no_panic` for the classical quadratic sieve: after a full interval, `rehash` with ANY reduced root
-tables returns (it has no assertion on the roots), and so do the following blocks, their factor recovery
-and `next_block`, as long as the running offset stays inside `i64`. -/
-theorem no_panic_rehash (fb : FB) (hfb : fb.WF) (hne : fb.primes.size ≠ 0) (r1 r2 r1' r2' : Array Nat)
-    (hr : RootsOK fb r1 r2) (hd : RootsDistinct fb r1 r2) (hr' : RootsOK fb r1' r2')
+/-- `no_panic` for the classical quadratic sieve, any number of `rehash` calls: after every full interval,
+`rehash` with ANY reduced root table returns (it has no assertion on the roots), and so do the blocks of
+the following interval, their factor recovery and `next_block`, as long as the running offset stays inside
+`i64` (`(rs.length + 1)·nblocks ≤ 2^40` blocks). -/
+theorem no_panic_rehash (fb : FB) (hfb : fb.WF) (hne : fb.primes.size ≠ 0) (r1 r2 : Array Nat)
+    (hr : RootsOK fb r1 r2) (hd : RootsDistinct fb r1 r2)
+    (rs : List (Array Nat × Array Nat)) (hrs : ∀ r ∈ rs, RootsOK fb r.1 r.2)
     (offset : Int) (ho1 : -2 ^ 62 ≤ offset) (ho2 : offset ≤ 2 ^ 62) (nblocks : Nat) (hN : nblocks ≤ 2 ^ 17)
+    (hrounds : (rs.length + 1) * nblocks ≤ 2 ^ 40)
     (recycled : Option (Array Table × Array LTable)) (hrec : RecycledSized fb nblocks recycled) :
-    ∃ s0 sa sb, Sieve.new offset nblocks fb r1 r2 recycled = some s0 ∧ runBlocks fb nblocks s0 = some sa ∧
-      rehash fb sa r1' r2' = some sb ∧
+    ∃ s0 sb, Sieve.new offset nblocks fb r1 r2 recycled = some s0 ∧ rehashRounds fb nblocks rs s0 = some sb ∧
       ∀ b, b < nblocks → ∃ s1 s s2, runBlocks fb b sb = some s1 ∧ sieveBlock fb s1 = some s ∧
-        (∀ r, r < 32768 → ∃ facs, factorsOf fb s r1' r2' r = some facs) ∧ nextBlock s = some s2 := by
+        (∀ r, r < 32768 → ∃ facs,
+          factorsOf fb s (lastRoots rs (r1, r2)).1 (lastRoots rs (r1, r2)).2 r = some facs) ∧
+        nextBlock s = some s2 := by
   obtain ⟨nS, hnS⟩ := hfb.ibl_some 16 (by omega)
   obtain ⟨s0, h0, hsz0, hsk0⟩ := new_total' (offset := offset) hfb hne hr hd hN hnS hrec
   obtain ⟨b0, n0, f0, inv0⟩ := new_spec hfb hr hrec.ok hnS h0
-  have hN' : (nblocks : Int) ≤ 2 ^ 17 := by exact_mod_cast hN
-  obtain ⟨sa, ha, inva, sza, ska, bka, ofa⟩ := runBlocks_some hfb hnS nblocks 0 s0 inv0 hsz0 hsk0
-    (by rw [b0]; omega) (by rw [f0]; omega)
-  obtain ⟨sb, hb, szb, skb⟩ := rehash_some hfb hr' inva sza
-  obtain ⟨invb, bkb, _, ofb⟩ := rehash_spec inva hb
-  refine ⟨s0, sa, sb, h0, ha, hb, ?_⟩
+  have hR : ((rs.length * nblocks : Nat) : Int) + (nblocks : Int) ≤ 2 ^ 40 := by
+    have : rs.length * nblocks + nblocks ≤ 2 ^ 40 := by
+      have e : (rs.length + 1) * nblocks = rs.length * nblocks + nblocks := by ring
+      omega
+    exact_mod_cast this
+  have hnn : (0 : Int) ≤ (nblocks : Int) := by positivity
+  obtain ⟨sb, hb, szb, skb, ofb, bkb⟩ := rehashRounds_some hfb hnS rs (r1, r2) 0 s0 hrs inv0 hsz0 hsk0 b0
+    (by rw [f0]; omega)
+  obtain ⟨invb, _, _, _⟩ := rehashRounds_spec hfb hnS rs (r1, r2) 0 s0 sb inv0 n0 hb
+  have hlr : RootsOK fb (lastRoots rs (r1, r2)).1 (lastRoots rs (r1, r2)).2 := by
+    unfold lastRoots
+    cases hl : rs.getLast? with
+    | none => simpa using hr
+    | some x => simpa using hrs x (List.mem_of_getLast? hl)
+  refine ⟨s0, sb, h0, hb, ?_⟩
   intro b hbn
-  have hb17 : (b : Int) < 2 ^ 17 := by exact_mod_cast (by omega : b < 2 ^ 17)
-  obtain ⟨s1, s, s2, h1, h2, h3, h4, _⟩ := run_some hfb hnS hr' hN b _ sb invb szb (by rw [skb, ska]; exact hsk0)
-    (by rw [bkb]; omega) (by rw [ofb, ofa, f0]; omega)
+  have hb17 : (b : Int) < (nblocks : Int) := by exact_mod_cast hbn
+  obtain ⟨s1, s, s2, h1, h2, h3, h4, _⟩ := run_some hfb hnS hlr hN b _ sb invb szb (by rw [skb]; exact hsk0)
+    (by rw [bkb]; omega) (by rw [ofb, f0]; omega)
   exact ⟨s1, s, s2, h1, h2, h4, h3⟩
 
 /-- `cofactor_no_panic`. `fbase::cofactor` returns (no index panic, no `u64` overflow, the trial-division loop
